@@ -227,8 +227,8 @@ storage_properties_set_dimension(struct StorageProperties* out,
 
     struct StorageDimension* dim = &out->acquisition_dimensions.data[index];
 
-    memset(dim, 0, sizeof(*dim)); // NOLINT
-
+    // The dimension may have been set before: copy_string() reuses (or grows)
+    // the name it already owns. Every other field is assigned below.
     struct String s = { .is_ref = 1,
                         .nbytes = bytes_of_name,
                         .str = (char*)name };
